@@ -556,11 +556,6 @@ class Dict(dict, base.Symbolic, pg_typing.CustomTyping):
             self._error_message(
                 f'Key {key!r} is not allowed for {container_cls}.'))
 
-    # Detach old value from object tree.
-    if isinstance(old_value, base.TopologyAware):
-      old_value.sym_setparent(None)
-      old_value.sym_setpath(utils.KeyPath())
-
     if (pg_typing.MISSING_VALUE == value and
         (not field or isinstance(field.key, pg_typing.NonConstKey))):
       if key in self:
@@ -574,6 +569,12 @@ class Dict(dict, base.Symbolic, pg_typing.CustomTyping):
     else:
       new_value = self._formalized_value(key, field, value)
       super().__setitem__(key, new_value)
+
+    # Detach old value from object tree. This happens after the new value is
+    # accepted, thus a rejected assignment leaves the old value untouched.
+    if isinstance(old_value, base.TopologyAware):
+      old_value.sym_setparent(None)
+      old_value.sym_setpath(utils.KeyPath())
 
     # NOTE(daiyip): If current dict is the field dict of a symbolic object,
     # Use parent object as update target.
